@@ -588,9 +588,12 @@ def main(modname, argv=None):
 
         # ---------------------------------------------------------------- violations
         if new_violations and not harness_errors:
-            items = sorted(new_violations.items(), key=lambda kv: kv[1][0]["index"])[:3]
+            items = sorted(new_violations.items(), key=lambda kv: kv[1][0]["index"])[:8]
             budget = {"quick": 20, "thorough": 120}[args.tier]
+            unreproduced = []
             for ident, cands in items:
+                if len(reported) >= 3:
+                    break
                 # A violation that depends on state left behind by earlier runs of the same worker
                 # process (an address-keyed cache in the code under test, say) does not replay from
                 # its own tape: try the other runs that showed the same violation before giving up.
@@ -616,9 +619,17 @@ def main(modname, argv=None):
                     except OSError:
                         pass
                 if not ok:
-                    harness_errors.append(
+                    unreproduced.append(
                         f"violation {ident} seen in runs {[v['index'] for v in cands]} did not reproduce from its replay file in a fresh process"
                     )
+            # A violation that only shows after other runs in the same process (state kept in a process-wide cache
+            # of the code under test) cannot be handed over as a replay file.  If another violation of this batch does
+            # replay, that one is the report and the rest is a note; if none does, nothing here can be believed.
+            if unreproduced and not reported:
+                harness_errors.extend(unreproduced)
+            else:
+                for u in unreproduced:
+                    print("NOTE (not reported, no replay):", u, file=sys.stderr)
         for idx in crashers:
             data = {
                 "property": mod.ID, "check_version": getattr(mod, "VERSION", 1), "repo": repo_rev(),
